@@ -280,6 +280,7 @@ type ctlKV struct {
 	holdGets bool // start-up scan in progress
 	pending  bool // a ReceiveBlob wrote its meta blob and has not set its index row yet
 	lateSet  bool
+	exempt    map[uint64]bool
 	failSetAt int // transient fault: the failSetAt-th next Set fails once (0 = none)
 	missed   map[string]bool // keys a Get did not find
 	sets     int
@@ -292,10 +293,45 @@ func newCtlKV() *ctlKV {
 	return k
 }
 
+// curGID is the id of the calling goroutine.
+func curGID() uint64 {
+	var buf [64]byte
+	n := runtime.Stack(buf[:], false)
+	// "goroutine 123 [running]:"
+	var id uint64
+	for _, c := range buf[len("goroutine "):n] {
+		if c < '0' || c > '9' {
+			break
+		}
+		id = id*10 + uint64(c-'0')
+	}
+	return id
+}
+
+// exemptMe: the calling goroutine is the API caller (or the start-up scan itself); the holds are meant
+// for the packer goroutines only and never block it.
+func (k *ctlKV) exemptMe() {
+	id := curGID()
+	k.mu.Lock()
+	if k.exempt == nil {
+		k.exempt = map[uint64]bool{}
+	}
+	k.exempt[id] = true
+	k.mu.Unlock()
+}
+
+func (k *ctlKV) clearExempt() {
+	k.mu.Lock()
+	k.exempt = nil
+	k.mu.Unlock()
+}
+
 func (k *ctlKV) Get(key string) (string, error) {
 	k.mu.Lock()
-	for k.holdGets || k.pending {
-		k.cond.Wait()
+	if (k.holdGets || k.pending) && !k.exempt[curGID()] {
+		for k.holdGets || k.pending {
+			k.cond.Wait()
+		}
 	}
 	k.mu.Unlock()
 	v, err := k.KeyValue.Get(key)
@@ -491,7 +527,8 @@ func (w *world) freshKV() {
 	worldN++
 	w.kvID = fmt.Sprintf("kv%d", worldN)
 	w.kv = newCtlKV()
-	w.kv.baseline = func() bool { return runtime.NumGoroutine() > w.base }
+	// (the API call itself runs on one goroutine beyond the baseline: exec.call)
+	w.kv.baseline = func() bool { return runtime.NumGoroutine() > w.base+1 }
 	kvByID[w.kvID] = w.kv
 }
 
@@ -508,7 +545,7 @@ func (w *world) quiesce() bool { return w.quiesceBut(0) }
 // quiesceBut waits until only `extra` goroutines beyond the baseline are left (an upload the harness
 // keeps hanging on purpose).
 func (w *world) quiesceBut(extra int) bool {
-	deadline := time.Now().Add(20 * time.Second)
+	deadline := time.Now().Add(callTimeout)
 	for runtime.NumGoroutine() > w.base+extra {
 		if time.Now().After(deadline) {
 			return false
@@ -517,6 +554,9 @@ func (w *world) quiesceBut(extra int) bool {
 	}
 	return true
 }
+
+// callTimeout bounds every call into the store and every wait of the harness: a stall becomes a failure.
+const callTimeout = 12 * time.Second
 
 var errTransient = errors.New("c11: transient failure of the wrapped store")
 
@@ -547,6 +587,7 @@ func (w *world) start(order []string) error {
 	}
 	done := make(chan res, 1)
 	go func() {
+		w.kv.exemptMe()
 		sto, err := blobserver.CreateStorage("encrypt", ld, jsonconfig.Obj{
 			"I_AGREE":   agreement,
 			"keyFile":   keyFile,
@@ -561,9 +602,10 @@ func (w *world) start(order []string) error {
 	select {
 	case r := <-done:
 		sto, err = r.sto, r.err
-	case <-time.After(60 * time.Second):
+	case <-time.After(callTimeout):
 		err = errHang
 	}
+	w.kv.clearExempt()
 	w.meta.mu.Lock()
 	w.meta.seq = nil
 	w.meta.seqCond.Broadcast()
